@@ -591,6 +591,14 @@ def index_lookup(data, items):
 
     # np.searchsorted doesn't work on mixed types in Python3
 
+    # The merge below only works on 1-d columns, so arrays with more
+    # dimensions are flattened and the result is given the shape back
+    shape = getattr(data, 'shape', None)
+    if shape is not None and len(shape) != 1:
+        data = np.asarray(data).ravel()
+    else:
+        shape = None
+
     ndata, ncat = len(data), len(items)
     data = pd.DataFrame({'data': data, 'row': np.arange(ndata)})
     cats = pd.DataFrame({'items': items,
@@ -599,6 +607,8 @@ def index_lookup(data, items):
     m = pd.merge(data, cats, left_on='data', right_on='items')
     result = np.zeros(ndata, dtype=float) * np.nan
     result[np.array(m.row)] = m.cat_row
+    if shape is not None:
+        result = result.reshape(shape)
     return result
 
 
